@@ -499,13 +499,13 @@ def oracle_functions(r):
 
 
 SUBCHECKS = [
-    SubCheck("distribution", _case(max_w=4, max_ops=9, max_branches=32), oracle_distribution, quick=3000, thorough=24000, shards_quick=8,
+    SubCheck("distribution", _case(max_w=4, max_ops=9, max_branches=32), oracle_distribution, valid=MC.valid_recipe, quick=3000, thorough=24000, shards_quick=8,
              essential={"cond": 0.15, "repeated_key": 0.05}),
-    SubCheck("distribution_qudit", _case(max_w=3, max_ops=8, qudits=True), oracle_distribution, quick=400, thorough=5000, shards_quick=2),
+    SubCheck("distribution_qudit", _case(max_w=3, max_ops=8, qudits=True), oracle_distribution, valid=MC.valid_recipe, quick=400, thorough=5000, shards_quick=2),
     SubCheck("distribution_clifford", _case(sims=["clifford", "clifford_nosplit", "stab_sampler"], max_w=4, max_ops=9, clifford=True, max_branches=16),
-             oracle_distribution, quick=480, thorough=4000, shards_quick=8),
+             oracle_distribution, valid=MC.valid_recipe, quick=480, thorough=4000, shards_quick=8),
     SubCheck("distribution_tableau", _case(sims=["stab_sampler"], max_w=4, max_ops=12, clifford=True, confusion=False, max_branches=16),
-             oracle_distribution, quick=500, thorough=4000, shards_quick=4),
-    SubCheck("sampling_is_pure", _sample_case(), oracle_sample_pure, quick=600, thorough=8000, shards_quick=2),
+             oracle_distribution, valid=MC.valid_recipe, quick=500, thorough=4000, shards_quick=4),
+    SubCheck("sampling_is_pure", _sample_case(), oracle_sample_pure, valid=MC.valid_recipe, quick=600, thorough=8000, shards_quick=2),
     SubCheck("measure_functions", _fn_case(), oracle_functions, quick=1500, thorough=30000, shards_quick=2, frozen_keys=("dims",)),
 ]
